@@ -132,7 +132,14 @@ impl Machine {
                 }
                 // Finish this instruction
                 while !self.is_instruction_done() && self.state() == State::Running {
-                    self.raw_mut().trigger_clock_edge()
+                    let before = self.raw.clone();
+                    self.raw_mut().trigger_clock_edge();
+                    if self.raw == before {
+                        // The microprogram is stuck on an unknown opcode: no further
+                        // clock edge can reach the next instruction. Return to the caller
+                        // instead of spinning forever.
+                        break;
+                    }
                 }
             }
             StepMode::Real => self.raw_mut().trigger_clock_edge(),
